@@ -32,4 +32,4 @@ LEVEL_TEXT = ("Per object kind, on the real code, for every outcome of every nat
               "an arbitrary call sequence is the sum over objects (paper step). Loop-free or loop-contracted units; the library-loader and p_libsys_init/shutdown units are new here.")
 LEVEL_NOTE = ("Covered object kinds: sockets, shared memory (+ lock semaphore), semaphores, shm buffer, mutex/cond/rwlock, TLS keys, thread handles (reference count), hash objects, socket addresses "
               "from text (addrinfo), directories, errors, library loader, native thread handle (attribute object destroyed once), tree/hash table/spinlock/profiler/hash-context constructors, INI parse and getters. Container pairs (trees, lists, tables, INI) are bounded and run under C12/C15/C16/C18. Bounded units inside this check (never counted as proved): c18_dir and c18_error (names/messages of a few characters), c18_ini_* (INI parse of '[s]' + one 4-byte line; getters on one fixed object), c11_dispatch (hex loop unwound to its fixed maximum, complete). p_libsys_init/shutdown: pairing and order over call-log stubs (unit libsys_init_shutdown) plus the real p_uthread_init/shutdown (c05_init_shutdown); the other subsystem "
-              "init/shutdown functions are empty on this configuration and are not verified. NOT covered: p_file/p_process; tree/hash-table/list container pairs beyond their constructors. Trusted: the ledger models in env/. The input regions of the known findings of C07 (existing segment of size 0) and C08 (existing buffer opened with a smaller size) are excluded from the shared units here; they are decided and reported under C07/C08.")
+              "init/shutdown functions are empty on this configuration and are not verified. NOT covered: p_file/p_process; tree/hash-table/list container pairs beyond their constructors. Trusted: the ledger models in env/. The input regions of the known findings of C07 (existing segment of size 0) and C08 (existing buffer opened with a smaller size) are excluded from the shared units here; they are decided and reported under C07/C08. Containers: BST insert/remove/clear (bounded, as under C12/C14: a replaced, removed or cleared pair goes to its notifiers exactly once, every node is freed once) and the hash-table listing functions under allocation failure; the other container operations are decided under C12-C15 only.")
